@@ -210,6 +210,19 @@ fn run_check(id: &str, tier: Tier) -> i32 {
                 "a workload whose reachable set closes has a bounded page high-water mark for all infinite runs over its alphabet; non-closure under the state cap is reported as exhaustive:false, not as a violation; budget 4 x largest snapshot + 16 pages is only a tripwire".into(),
                 "long laps are specific deterministic histories (2 000 / 20 000 transactions), not samples".into(),
             ];
+            {
+                // (first, while this process is single-threaded) the persisted free list walked across the
+                // one-page capacity with a reopen after every commit: no page may drop out of every category
+                c.assumptions.push("plus the free-list boundary walks (four variants, reopen after every commit) judged by the independent page accounting (coverage.long_histories)".into());
+                let or = runner::Oracles { fileck: true, dbcheck: true, ..runner::Oracles::NONE };
+                let mut list = vec![];
+                for p in if tier == Tier::Quick { vec![1024u64] } else { vec![1024u64, 4096] } {
+                    for variant in 0..4u8 {
+                        list.push((format!("free-list-boundary-walk-p{}-v{}", p, variant), runner::Cfg { pagesize: p, num_pages: 32, ..runner::Cfg::default() }, optx::freelist_boundary_walk(p, variant), or));
+                    }
+                }
+                linear::run_histories(&mut c, list, "long_histories");
+            }
             seqx::explore(&mut c, id, "seqx");
             let (txs, rows) = c10::run_laps(&mut c);
             c.cov("lap_transactions", serde_json::json!(txs));
